@@ -25,6 +25,11 @@ CLAIMED = {
     note="Partial: spans_in_input, result_or_error and print_parse_roundtrip rest on the correspondence (model == implementation on all generated strings) plus direct monitors on the real parser; stack depth is outside the model (deep-nesting stream; known finding F4). Trusted: Lean kernel, model of parsing.rs, regex/globset validity as inputs.",
     technique="Lean 4 proof (finite table by kernel evaluation, case analysis) + differential correspondence + monitors",
     design="§5 C20"),
+ "C06": dict(
+    text="Lean 4 theorems: the override list produced by the extend_reverse/reverse/chain bookkeeping IS the documented search order for any number of config files and profiles (compiled_order), each setting takes the value of the first applicable override that sets it (settings_spec), settings are resolved independently (fields_independent), the whole resolution equals the documented precedence incl. profile fall-backs (effective_spec) and --retries wins (cli_retries_wins). Tied to the code by differential checking of NextestConfig::from_sources -> profile -> apply_build_platforms -> settings_for on generated TOML configs.",
+    note="Trusted: Lean kernel + standard axioms; hand-written Model/Settings; target-spec and filterset truth are inputs from fixed tables; the config crate's layering is modelled, not verified; force_retries is exercised end-to-end only.",
+    technique="Lean 4 proof (induction over file and override lists) + differential correspondence",
+    design="§5 C06"),
 }
 NOT_YET = "not yet claimed: model/theorems for this property are still being built (see DESIGN.md §5); no other technique is substituted"
 
